@@ -13,6 +13,7 @@ import json,sys,hashlib
 e=json.load(open(sys.argv[1])); c=e['coverage']
 for k in ['runs_per_hour','replay','miri_layer','send_sync_probe_crate']: c.pop(k,None)
 if 'probes' in c: c['probes'].pop('doc_rebuilt_at_same_address',None)   # allocator-dependent, reported only
+if 'faults' in c and 'document_dropped_and_rebuilt' in c['faults']: c['faults']['document_dropped_and_rebuilt'].pop('at_the_same_address',None)
 e.pop('wall_s',None)
 print(hashlib.sha256(json.dumps(e,sort_keys=True).encode()).hexdigest()[:16])
 PY
